@@ -220,3 +220,18 @@ def register(claim, na):
         "symbolic execution of the real simulator/sampling/expectation code on sympy angles and shadow amplitudes + z3 QF_NRA identities against a bit-level oracle",
         "DESIGN.md §1 E1/E2, §2 C04",
     )
+    claim(
+        "C19", "model_checking",
+        "For every expression of an enumerated grammar (atoms x, y, integers, rationals, a float, I; unary -, cos, sin, exp, tan, sqrt, reciprocal; "
+        "binary + - * / in both operand orders; powers with twelve exponents; depth 1-2 fully, depth 3 from a seeded subset, 36 hand-picked "
+        "rewritten shapes) the REAL expression_from_sympy and translate_expression(SYMPY_DIALECT) are executed and z3 decides, for ALL real "
+        "symbol values in the stated box, that the round trip differs from the original by at most 1e-6: arithmetic, integer powers, division and "
+        "real square roots (branch for negative radicands included) are interpreted, the transcendental heads are uninterpreted functions. "
+        "Unsupported constructs must be refused (ground), natural keys are enumerated (ground).",
+        "On the unchanged tree most obligations are discharged by z3's simplifier because the round trip is term-identical after translation; "
+        "each batch carries a vacuity twin (operands of a sub/div/pow swapped in the neutral tree) that must be found different. Models are "
+        "replayed numerically (at the model point and its sign variants); a model that does not reproduce makes the instance inconclusive. "
+        "natural_key over symbolic strings is out of CrossHair's reach here (re.split): that clause is a ground enumeration, not solver coverage.",
+        "real round trip per expression + z3 (QF_UFNRA: interpreted arithmetic and real roots, uninterpreted transcendental heads) over all symbol values",
+        "DESIGN.md §1 E1, §2 C19",
+    )
